@@ -59,7 +59,7 @@ def _r_legal(f):
     if any("CCS" in r and len(r) > 1 for fl in recs for r in fl):
         return False
     flat = [[m for r in fl for m in r] for fl in recs]
-    if victim == "sg":
+    if victim in ("sg", "sa"):
         if chv != "0101":
             return False
         auth, cc = int(cfg["auth"]), cfg["cc"] == "1"
